@@ -35,3 +35,25 @@ func VerifCanonicalHeader(v string) string { return canonicalHeader(v) }
 
 // VerifValidWireHeaderFieldName exposes validWireHeaderFieldName (http2.go).
 func VerifValidWireHeaderFieldName(v string) bool { return validWireHeaderFieldName(v) }
+
+// VerifHeaderEncoder is one connection's request header encoder state (ClientConn.henc with its
+// HPACK dynamic table, ClientConn.hbuf), kept across requests like on a real connection.
+type VerifHeaderEncoder struct{ cc *ClientConn }
+
+func VerifNewHeaderEncoder(peerMaxHeaderListSize uint64) *VerifHeaderEncoder {
+	cc := &ClientConn{peerMaxHeaderListSize: peerMaxHeaderListSize}
+	cc.henc = hpack.NewEncoder(&cc.hbuf)
+	return &VerifHeaderEncoder{cc: cc}
+}
+
+// EncodeHeaders runs ClientConn.encodeHeaders for the next request of the connection.
+func (e *VerifHeaderEncoder) EncodeHeaders(req *http.Request, addGzipHeader bool, trailers string, contentLength int64) ([]byte, error) {
+	b, err := e.cc.encodeHeaders(req, addGzipHeader, trailers, contentLength, nil)
+	return append([]byte(nil), b...), err
+}
+
+// EncodeTrailers runs ClientConn.encodeTrailers on the same connection state.
+func (e *VerifHeaderEncoder) EncodeTrailers(trailer http.Header) ([]byte, error) {
+	b, err := e.cc.encodeTrailers(trailer, nil)
+	return append([]byte(nil), b...), err
+}
